@@ -2,7 +2,7 @@
    case against what Model/Ddl.v computes for the same case. *)
 From Coq Require Import List ZArith NArith Bool String Uint63.
 From Lib Require Import CorrLib.
-From Model Require Import Ddl.
+From Model Require Import Ddl DdlConn.
 Import ListNotations.
 Open Scope string_scope.
 Open Scope list_scope.
@@ -54,7 +54,19 @@ Inductive case :=
         (steps : list (bool * list str * list str))
 (* a foreign table `decoy` is created out of band first; then class a: createTable(ifNotExists=True)
    twice, dropTable(ifExists=True) twice *)
-| CDecoy (a b : decl) (decoy : str) (steps : list (bool * list str * list str)).
+| CDecoy (a b : decl) (decoy : str) (steps : list (bool * list str * list str))
+(* two databases; both classes are bound to the first ("home").  Every call goes to home (no connection=
+   argument, or connection=home) or to the second database (connection=second); after every call BOTH
+   databases are observed: error flag, answer of tableExists, (tables with row counts, indexes) of home
+   and of second.  rend: SQL rendered for another connection's dialect through the argument. *)
+| CConn (a b : decl)
+        (ops : list (nat * bool * nat * bool * bool * bool))
+        (* op, class a?, via (0 no argument / 1 connection=home / 2 connection=second), if-flag, f1, f2.
+           op 0..4 as in CIdem / 5 dropJoinTables(ifExists) / 6 tableExists / 7 clearTable(clearJoinTables=f1) /
+           8 out of band: one row into every table of that database *)
+        (steps : list (bool * option bool * (list (str * nat) * list str) * (list (str * nat) * list str)))
+        (rend : list (bool * nat * nat * bool * bool * sqlobs)).
+        (* class a?, dialect (index in all_dialects), method (see render_sql), f1, f2, what came back *)
 
 (* ---------- equalities *)
 Definition toks_eqb := list_eqb tok_eqb.
@@ -223,6 +235,40 @@ Fixpoint idem_views (a b : decl) (db : dbstate) (ops : list (nat * bool * bool *
       (e, map t_name (db_tables db'), map fst (db_indexes db')) :: idem_views a b db' r
   end.
 
+(* ---------- conn cases *)
+Definition mk_op (op : nat) (flag f1 f2 : bool) (k : Z) : sch_op :=
+  match op with
+  | 0%nat => OCreate flag f1 f2 | 1%nat => ODrop flag f1 | 2%nat => ORawDrop | 3%nat => OJoins flag
+  | 4%nat => OIndexes | 5%nat => ODropJoins flag | 6%nat => OExists | 7%nat => OClear f1
+  | _ => OFill k
+  end.
+Definition mk_arg (via : nat) : option connid :=
+  match via with 0%nat => None | 1%nat => Some Home | _ => Some Second end.
+Definition db_view (db : dbstate) : list (str * nat) * list str :=
+  (map (fun t => (t_name t, List.length (t_rows t))) (db_tables db), map fst (db_indexes db)).
+Definition same_tabs (x y : list (str * nat)) : bool :=
+  same_set (map fst x) (map fst y)
+  && forallb (fun p => existsb (fun q => str_eqb (fst p) (fst q) && Nat.eqb (snd p) (snd q)) y) x.
+Definition view_eqb (x y : list (str * nat) * list str) : bool :=
+  same_tabs (fst x) (fst y) && same_set (snd x) (snd y).
+Fixpoint conn_views (a b : decl) (w : world) (k : Z) (ops : list (nat * bool * nat * bool * bool * bool))
+  : list (bool * option bool * (list (str * nat) * list str) * (list (str * nat) * list str)) :=
+  match ops with
+  | [] => []
+  | (op, who, via, flag, f1, f2) :: r =>
+      let cl := {| c_arg := mk_arg via; c_who := who; c_op := mk_op op flag f1 f2 k |} in
+      let '(w', e, ans) := world_step Home a b cl w in
+      (e, ans, db_view (w_home w'), db_view (w_second w')) :: conn_views a b w' (k + 1)%Z r
+  end.
+Definition caps0 : caps := {| mysql_micro := false; mssql_micro := false; mssql_max := false |}.
+Definition rend_agree (a b : decl) (r : bool * nat * nat * bool * bool * sqlobs) : bool :=
+  let '(who, di, m, f1, f2, o) := r in
+  match render_sql (nth di all_dialects Sqlite) caps0 (if who : bool then a else b) m f1 f2, o with
+  | None, SErr => true
+  | Some (st, cs), SOk st' cs' => stmts_eqb st st' && stmts_eqb cs cs'
+  | _, _ => false
+  end.
+
 Definition agree (c : case) : bool :=
   match c with
   | CDdl dc cp class_error sql names ex =>
@@ -255,4 +301,12 @@ Definition agree (c : case) : bool :=
                   [(0%nat, true, true, true, true); (0%nat, true, true, true, true);
                    (1%nat, true, true, true, true); (1%nat, true, true, true, true)])
                steps
+  | CConn a b ops steps rend =>
+      let empty := {| db_tables := []; db_indexes := [] |} in
+      list_eqb (fun x y =>
+                  let '(e, ans, h, s) := x in
+                  let '(e', ans', h', s') := y in
+                  Bool.eqb e e' && option_eqb Bool.eqb ans ans' && view_eqb h h' && view_eqb s s')
+               (conn_views a b {| w_home := empty; w_second := empty |} 0%Z ops) steps
+      && forallb (rend_agree a b) rend
   end.
